@@ -377,6 +377,20 @@ fn one<X: Sx, Y: Sx>(ctx: &Ctx, idx: u64, l: usize, m: usize, all_flips: bool) {
             xcm.remove(k);
             pv("relabel-committed-as-signer", format!("{k}"), &proof, &pk, ho, po, Some(l),
                &sd.iter().map(|p| p.1.clone()).collect::<Vec<_>>(), &xcm, &sd.iter().map(|p| p.0).collect::<Vec<_>>(), &xc);
+            // the same false statement with the index list in another order (messages listed by ascending index, and
+            // listed alongside their index): a verifier that sorts, or checks only the first / last entry, sees it
+            let sm: Vec<Vec<u8>> = sd.iter().map(|p| p.1.clone()).collect();
+            let si: Vec<usize> = sd.iter().map(|p| p.0).collect();
+            let orders: Vec<(&str, Vec<usize>)> = vec![("reversed", (0..si.len()).rev().collect()), ("rotated", (1..si.len()).chain(0..1.min(si.len())).collect())];
+            for (on, perm) in orders {
+                let pi: Vec<usize> = perm.iter().map(|&q| si[q]).collect();
+                if pi == si {
+                    continue;
+                }
+                let pm: Vec<Vec<u8>> = perm.iter().map(|&q| sm[q].clone()).collect();
+                pv("relabel-committed-as-signer", format!("{k}/indexes-{on}"), &proof, &pk, ho, po, Some(l), &sm, &xcm, &pi, &xc);
+                pv("relabel-committed-as-signer", format!("{k}/pairs-{on}"), &proof, &pk, ho, po, Some(l), &pm, &xcm, &pi, &xc);
+            }
         }
         // reverse re-labelling: signer (i, msg) presented in the committed list with wrapped index
         for k in pick_idx(d.len()) {
